@@ -748,7 +748,10 @@ class Engine:
     def module_attr(self, modname, attr):
         full = '%s.%s' % (modname, attr)
         if modname in self.program.modules:
-            return self.lookup_global(attr, self.program.modules[modname])
+            m = self.program.modules[modname]
+            if full in self.program.modules and attr not in m.functions and attr not in m.classes and attr not in m.assigns and attr not in m.imports:
+                return VModule(full)          # sub-module of a package
+            return self.lookup_global(attr, m)
         if full in self.program.modules:
             return VModule(full)
         if full in self.models:
